@@ -2,7 +2,11 @@ package spvval
 
 import (
 	"fmt"
+	"runtime"
 	"sort"
+	"strings"
+
+	"verif/internal/xrt"
 )
 
 // Finding is one rule violation.
@@ -27,6 +31,19 @@ type Report struct {
 	Unsupported []string
 	// Combos counts distinct (opcode, operand type) combinations seen by the typing rules.
 	Combos map[string]int
+}
+
+// Err maps the report onto the shared error contract: *xrt.Unsupported when the blob contains
+// constructs the validator does not know (the verdict is then undecided), *xrt.Malformed carrying
+// the first finding when there are findings, nil otherwise.
+func (r *Report) Err() error {
+	if len(r.Unsupported) > 0 {
+		return &xrt.Unsupported{What: "spvval: " + strings.Join(r.Unsupported, ", ")}
+	}
+	if len(r.Findings) > 0 {
+		return &xrt.Malformed{What: fmt.Sprintf("spvval: %d finding(s), first: %s", len(r.Findings), r.Findings[0])}
+	}
+	return nil
 }
 
 // Rule ids.
@@ -185,16 +202,22 @@ func (c *ctx) combo(in *inst, ts ...uint32) {
 }
 
 // describeShort is describe without ids, so that combos are comparable across modules.
-func (m *module) describeShort(id uint32) string {
+func (m *module) describeShort(id uint32) string { return m.describeShortD(id, 0) }
+
+func (m *module) describeShortD(id uint32, depth int) string {
+	if depth > 8 {
+		return "..."
+	}
+	depth++
 	t := m.types[id]
 	if t == nil {
 		return "?"
 	}
 	switch t.kind {
 	case tkVector:
-		return fmt.Sprintf("vec%d<%s>", t.count, m.describeShort(t.elem))
+		return fmt.Sprintf("vec%d<%s>", t.count, m.describeShortD(t.elem, depth))
 	case tkMatrix:
-		return fmt.Sprintf("mat%d<%s>", t.count, m.describeShort(t.elem))
+		return fmt.Sprintf("mat%d<%s>", t.count, m.describeShortD(t.elem, depth))
 	case tkArray:
 		return "array"
 	case tkRuntimeArray:
@@ -210,7 +233,7 @@ func (m *module) describeShort(id uint32) string {
 	case tkFunction:
 		return "fn"
 	}
-	return m.describe(id)
+	return m.describeD(id, depth)
 }
 
 // Validate checks a SPIR-V binary. It never panics; a malformed stream is reported as a finding
@@ -219,7 +242,7 @@ func Validate(b []byte) (rep *Report) {
 	rep = &Report{Fired: map[string]int{}, Opcodes: map[uint16]int{}, Combos: map[string]int{}}
 	defer func() {
 		if r := recover(); r != nil {
-			rep.Findings = append(rep.Findings, Finding{Rule: RStream, Detail: fmt.Sprintf("validator internal error (treated as malformed stream): %v", r), InstIndex: -1})
+			rep.Findings = append(rep.Findings, Finding{Rule: RStream, Detail: fmt.Sprintf("validator internal error (treated as malformed stream): %v\n%s", r, panicSite()), InstIndex: -1})
 		}
 		sort.SliceStable(rep.Findings, func(i, j int) bool { return rep.Findings[i].InstIndex < rep.Findings[j].InstIndex })
 	}()
@@ -268,6 +291,26 @@ func Validate(b []byte) (rep *Report) {
 	return rep
 }
 
+// panicSite returns the first frames of this package on the panicking stack.
+func panicSite() string {
+	pcs := make([]uintptr, 32)
+	n := runtime.Callers(3, pcs)
+	fr := runtime.CallersFrames(pcs[:n])
+	out := ""
+	k := 0
+	for {
+		f, more := fr.Next()
+		if strings.Contains(f.Function, "spvval.") && !strings.Contains(f.Function, "Validate.func") {
+			out += fmt.Sprintf("  %s:%d\n", f.Function, f.Line)
+			k++
+		}
+		if !more || k >= 4 {
+			break
+		}
+	}
+	return out
+}
+
 func (c *ctx) checkHeader(s *stream) {
 	c.check(RHeader, s.magicOK, nil, "magic number is not 0x07230203")
 	v := s.verWord
@@ -296,6 +339,11 @@ func hasResult(op uint16) bool {
 		}
 	}
 	return false
+}
+
+func hasResultType(op uint16) bool {
+	info, ok := opTable[op]
+	return ok && len(info.fmt) > 0 && info.fmt[0] == 't'
 }
 
 func (c *ctx) checkOperandLayout() {
